@@ -13,6 +13,7 @@ import shutil
 import ssl
 import tempfile
 import traceback
+import weakref
 from argparse import Namespace
 
 from . import env
@@ -65,7 +66,7 @@ class World:
         self.perm_rng: random.Random | None = None
         self.conns: list[SimConn] = []
         self.pumps: list = []
-        self.states: dict = {}
+        self.states = weakref.WeakValueDictionary()
         self.server_errors: list[dict] = []
         self.moves = 0
         self.scratch: str | None = None
